@@ -1142,16 +1142,22 @@ def reject_probes(ck: Ck, base: str, wd: str) -> None:
         expect = U.canon_views(w, lambda n: w[n], g.vit, ver)
         path = os.path.join(wd, 'probe.bsp')
         shutil.copy(base, path)
-        b = B.BSP(path)
-        U.apply_config(b, cfg)
-        b.static_prop_version = ver
-        b.game_lumps[b'sprp'].version = ver.version
-        b.out_comma_sep = w['out_comma_sep']
-        for v in ['ents'] + [v for v in U.VIEWS if v != 'ents']:
-            if not (v == 'bmodels' and w[v] is None):
-                setattr(b, v, w[v])
+        try:
+            b = B.BSP(path)
+            U.apply_config(b, cfg)
+            b.static_prop_version = ver
+            b.game_lumps[b'sprp'].version = ver.version
+            b.out_comma_sep = w['out_comma_sep']
+        except Exception as e:      # noqa: BLE001 - the base file was read and checked a moment ago: opening a copy of it must work
+            ck.violation('base-file:reopen', f'a copy of the base file cannot be opened: {type(e).__name__}: {e}'[:300],
+                         {'probe': key, 'how': 'shutil.copy(base, path); BSP(path)', 'error': f'{type(e).__name__}: {e}'[:300]})
+            return
         try:
             with contextlib.redirect_stdout(io.StringIO()), U.time_limit(U.IMPL_TIME_LIMIT):
+                # (a validator that refuses the value when the view is assigned is a rejection as well)
+                for v in ['ents'] + [v for v in U.VIEWS if v != 'ents']:
+                    if not (v == 'bmodels' and w[v] is None):
+                        setattr(b, v, w[v])
                 b.save(path)
         except U.ImplTimeout as e:
             ck.hist('rejection_outcome', 'HANG')
@@ -1230,6 +1236,25 @@ def coq_strs(xs: list[str]) -> str:
     for x in reversed(xs):
         out = f'(cons "{x}" {out})'
     return out
+
+
+def guarded(ck: Ck, stage: str, fn: Any, *args: Any) -> None:
+    """Run a stage of the oracle.  Calls into the implementation are wrapped where a well-formed input may legitimately fail; an
+    exception that still escapes and was raised INSIDE the implementation (innermost frame in srctools) is a failing input of that
+    stage, reported with its call stack - not an internal error of the check.  Exceptions of the check's own code are re-raised."""
+    try:
+        fn(*args)
+    except Exception as e:      # noqa: BLE001
+        tb = __import__('traceback').extract_tb(e.__traceback__)
+        if not tb or '/srctools/' not in tb[-1].filename:
+            raise
+        ck.violation('crash:' + stage, f'{type(e).__name__}: {e} raised inside the implementation during {stage}'[:300],
+                     {'stage': stage, 'error': f'{type(e).__name__}: {e}'[:300], 'how': f'checks/c11.py {stage}: run the check',
+                      'stack': [f'{f.filename.split("/")[-1]}:{f.lineno} {f.name}' for f in tb][-8:]})
+    except U.ImplTimeout as e:
+        ck.violation('hang:' + stage, f'a call into the implementation during {stage} did not return: {e}',
+                     {'stage': stage, 'how': f'checks/c11.py {stage}: run the check',
+                      'stack': [f'{f.filename.split("/")[-1]}:{f.lineno} {f.name}' for f in __import__('traceback').extract_tb(e.__traceback__)][-8:]})
 
 
 def glue_obligations(glue: dict) -> dict[str, str]:
@@ -1413,10 +1438,10 @@ def run(ck: Ck) -> None:
         lap('correspondence_cases')
     try:
         # the coqc runs of the correspondences go on in the background while the implementation is searched
-        reject_probes(ck, base, wd)
-        high_precision_delay_probe(ck, base, wd)
+        guarded(ck, 'reject_probes', reject_probes, ck, base, wd)
+        guarded(ck, 'output_delay_probe', high_precision_delay_probe, ck, base, wd)
         lap('reject_probes')
-        search(ck, base, wd)
+        guarded(ck, 'search', search, ck, base, wd)
         lap('search')
     finally:
         if ex is not None:
@@ -1425,7 +1450,7 @@ def run(ck: Ck) -> None:
     if len(ck.tie_broken) > ties_before and not ck.violations and not ck.thorough:
         # a correspondence broke after the search had started with the small budget and nothing concrete was found: search again
         # with the escalated budget (ck.budget now returns the thorough size)
-        search(ck, base, wd)
+        guarded(ck, 'search', search, ck, base, wd)
         lap('search_escalated')
     # A failed obligation is explained by a concrete violation found on the implementation.
     keys = {v['key'] for v in ck.violations}
